@@ -10,6 +10,10 @@ import (
 
 const maxInlineDepth = 4
 
+// KnownFailing: obligations recorded in known_findings.json (name -> property).
+// Their clauses are never assumed at call sites.
+var KnownFailing = map[string]string{}
+
 type closureVal struct {
 	fn       *ssa.Function
 	bindings []Term
@@ -359,8 +363,11 @@ func (x *fx) contractCall(fc *FuncContract, key string, names []string, ptypes [
 		if c.Profile != "" && c.Profile != e.profile {
 			continue
 		}
-		if !c.HasProp(e.prop) {
-			continue // proved (and therefore usable) only in the runs of its own properties
+
+		if c.Label != "" {
+			if _, bad := KnownFailing[key+"#post:"+c.Label]; bad {
+				continue // a clause recorded as a known finding is never assumed
+			}
 		}
 		tv, err := post.eval(c.Expr)
 		if err != nil {
